@@ -334,7 +334,8 @@ def run(ctx):
         "1 <= K <= n": "proved (C11_bounds)", "K = 1 for separable arrays": "proved (C11_separable)",
         "K = n for equal-magnitude (permuted) diagonal": "proved (C11_diagonal, C11_perm_diagonal)",
         "invariance under complex scale / phases / transposition": "proved on the real model (C11_scale, C11_phases, C11_moduli_only, C11_transpose); in binary64 "
-            "validated for scale factors 1e-30..1e30; FAILS beyond about 1e+-75 (sigma^4 under/overflow: known finding, signature scale_invariance/sigma4_over_underflow)",
+            "validated for scale factors 1e-100..1e100 on every generated array and 1e-160..1e160 on a 2x2 array (the singular values are normalised by the largest "
+            "one before the power sums since /repo 4fb41e7, finding F20 fixed; C11_normalisation_invariant, C11_rounding_partial)",
         "non-square length rejected": "proved for the modelled check (C11_square_check, C11_rejects_nonsquare); implementation checked exhaustively to 2000",
         "setup-level = array-level on sampled amplitudes": "validated_only (Rust-vs-Rust and exact recomputation from the sampled moduli)",
         "binary64 result within 1e-9 of the real value": "validated_only (Coq vm_compute on exact rationals, interval goals)"}
